@@ -47,6 +47,12 @@ impl<K: Clone + Eq + Hash, V> LruTimeCache<K, V> {
 
         match self.map.raw_entry_mut().from_key(key) {
             hashlink::linked_hash_map::RawEntryMut::Occupied(mut occupied) => {
+                if occupied.get().1 + self.ttl < now {
+                    // The entry has expired: it must neither be handed out nor have its
+                    // lifetime renewed. It stays in place until `remove_expired_values` collects
+                    // (and reports) it.
+                    return None;
+                }
                 occupied.get_mut().1 = now;
                 occupied.to_back();
                 Some(&mut occupied.into_mut().0)
